@@ -222,7 +222,7 @@ constexpr size_t dynamic_extent = std::numeric_limits<std::size_t>::max();
 template <class T, std::size_t Extent = dynamic_extent>
 class span {
 public:
-  constexpr span(T *data = nullptr, size_t size = Extent)
+  constexpr span(T *data = nullptr, size_t size = (Extent == dynamic_extent ? 0 : Extent))
     : data_(data), size_(size) {}
  
   constexpr span(const span<T> &o)
